@@ -531,8 +531,8 @@ func run(c *runner.Ctx) {
 		}
 	}
 	// long values (the json rule abbreviates inputs over 256 bytes in its clause; buffers sized from the input length)
-	for _, unit := range []string{"a", "\x1a'", "中", "\xff", "\"", "1", "1,", " ", "\\", "{\"a\":"} {
-		for _, n := range []int{100, 255, 256, 257, 258, 300, 513, 4096, 70000} {
+	for _, unit := range []string{"a", "\x1a'", "中", "\xff", "\"", "1", "1,", " ", "\\", "{\"a\":", "*", "-", "\x00", "X", "9"} {
+		for _, n := range []int{11, 15, 17, 18, 19, 100, 255, 256, 257, 258, 300, 513, 4096, 70000} {
 			tryVal(strings.Repeat(unit, n/len(unit)+1)[:n])
 		}
 	}
@@ -600,6 +600,15 @@ func run(c *runner.Ctx) {
 				}
 			}
 			c.Done(true, 0)
+		}
+	}
+	// masked numbers: a digit prefix, the rest filler
+	for _, fill := range []string{"*", "-", " ", "\x00", "x"} {
+		for keep := 0; keep <= 4; keep++ {
+			for _, n := range []int{11, 15, 18} {
+				tryVal("5113"[:keep] + strings.Repeat(fill, n-keep))
+				tryVal(strings.Repeat(fill, n-keep) + "513X"[:keep])
+			}
 		}
 	}
 	for _, seed := range []string{`{"a":[1,"x\n"]}`, "it's a \\ \"q\"\t\r\n\x00", "2021-09-28 10:00:00", "1,2,3", "a@b.cn", "1.2.3.4", "::1"} {
